@@ -150,6 +150,11 @@ Theorem C18_conc_loads_were_stored : forall thr sched m,
   forall pre tid f v post, evs = (pre ++ (tid, ALoad f, v) :: post)%list ->
     v = last_store f pre (get_field m f).
 Proof. exact conc_loads_were_stored. Qed.
+Theorem C18_conc_loads_not_invented : forall thr sched m,
+  let '(m', evs) := run_sched m thr sched in
+  forall pre tid f v post, evs = (pre ++ (tid, ALoad f, v) :: post)%list ->
+    v = get_field m f \/ exists tid' x, In (tid', AStore f v, x) pre.
+Proof. exact conc_loads_not_invented. Qed.
 (** the final content of a field is its last store in schedule order; other fields' stores commute *)
 Theorem C18_conc_last_store_wins : forall thr sched m f,
   let '(m', evs) := run_sched m thr sched in get_field m' f = last_store f evs (get_field m f).
